@@ -39,7 +39,7 @@ REGISTRY = {
             "roundtrip_string", "roundtrip_asset", "roundtrip_account", "roundtrip_portion", "roundtrip_number",
             "roundtrip_monetary"], "C14": ["parse_text_sound", "parse_sound", "parse_unparse", "lex_ident_not_keyword", "lex_fixed_text", "lexAll_agrees_with_lex", "lexAll_errors_in_text", "lexAll_tokens_in_text", "eofPos_in_text", "syntax_error_on_token_in_text", "syntax_error_at_eof_in_text", "lexer_error_range_in_text", "show_never_panics", "syntax_error_range_wf", "show_syntax_error_never_panics", "splitLines_ne_nil",
             "percent_literal_exact", "percent_frac_literal_exact", "ratio_literal_exact"],
-    "C15": ["layout_insertion_fails_comment_after_asset", "layout_insertion_fails_newline_after_slashes", "parse_render", "parse_unparse", "parse_unparse_expr", "unparse_numbers_in_range", "lex_render", "best_of_lexable", "parse_ranges_ok", "parseTokens_ranges_ok", "parseTokens_call_ranges_nodup", "rangesOk_nested", "parseTokens_exprs_nested", "parse_left_assoc", "parse_layout_independent", "parse_complete", "lex_sorted", "lex_located", "lexLoop_fuel_irrelevant", "lex_lengths", "gtEq_refl", "gtEq_total", "gtEq_trans", "gtEq_antisymm", "gtEq_iff", "contains_mono", "contains_disjoint"],
+    "C15": ["lex_layout_insertion_partial", "parse_layout_insertion_partial", "layout_insertion_fails_comment_after_asset", "layout_insertion_fails_newline_after_slashes", "parse_render", "parse_unparse", "parse_unparse_expr", "unparse_numbers_in_range", "lex_render", "best_of_lexable", "parse_ranges_ok", "parseTokens_ranges_ok", "parseTokens_call_ranges_nodup", "rangesOk_nested", "parseTokens_exprs_nested", "parse_left_assoc", "parse_layout_independent", "parse_complete", "lex_sorted", "lex_located", "lexLoop_fuel_irrelevant", "lex_lengths", "gtEq_refl", "gtEq_total", "gtEq_trans", "gtEq_antisymm", "gtEq_iff", "contains_mono", "contains_disjoint"],
     "C16": ["text_names_exact", "unbound_exact", "duplicate_exact", "unused_exact", "resolution_exact", "valid_expr_no_error", "valid_has_no_error"], "C17": ["text_clean_check_sound", "parse_parser_inv", "clean_check_sound", "silent_check_no_sendall_shape_error", "checkExpression_sound",
             "checkExpression_errors_mono", "checkExpression_declared"], "C18": ["text_check_never_panics", "check_never_panics", "check_total", "symbols_never_panic", "hover_never_panics", "goto_never_panics",
             "lspHover_never_panics", "check_keeps_parse_diags", "complete_is_benign_expr",
